@@ -1998,6 +1998,18 @@ class unyt_array(np.ndarray):
                     inp1 = np.asarray(inp1, dtype=new_dtype) * conv
             # get the unit of the result
             mul, unit = unit_operator(u0, u1)
+            if unit_operator in (_multiply_units, _divide_units):
+                # refuse before evaluating so that out= targets stay untouched
+                if (
+                    u0.base_offset
+                    and u0.dimensions is temperature
+                    or u1.base_offset
+                    and u1.dimensions is temperature
+                ):
+                    raise InvalidUnitOperation(
+                        "Quantities with units of Fahrenheit or Celsius "
+                        "cannot be multiplied, divided, subtracted or added."
+                    )
             # actually evaluate the ufunc
             out_arr = func(
                 inp0.view(np.ndarray), inp1.view(np.ndarray), out=out_func, **kwargs
@@ -2010,16 +2022,6 @@ class unyt_array(np.ndarray):
                                 out_arr.view(np.ndarray), unit.base_value, out=out_func
                             )
                             unit = Unit(registry=unit.registry)
-                if (
-                    u0.base_offset
-                    and u0.dimensions is temperature
-                    or u1.base_offset
-                    and u1.dimensions is temperature
-                ):
-                    raise InvalidUnitOperation(
-                        "Quantities with units of Fahrenheit or Celsius "
-                        "cannot be multiplied, divided, subtracted or added."
-                    )
         else:
             if ufunc is clip:
                 inp = []
